@@ -577,7 +577,9 @@ def aborting_predecessor(kind, rng):
     from gen import scenario
     from lib import stage
     files = scenario.scenario_events(R=rng.choice([2, 3]), groups=1, kernels=rng.randint(1, 2), seed=rng.randint(0, 999))
-    argv = ["--freq", "512:512"]
+    # the aborting run uses switches of its own: whatever they switch on while registering must not outlive the abort
+    argv = ["--freq", "512:512"] + rng.choice([[], ["-s"], ["-s"], ["-S"], ["--tb"], ["-O", "drop"], ["--comm_summarize_seq"],
+                                               ["-k"], ["--flex_ts_fix"], ["--keep_names"], ["-s", "--keep_prep"]])
     if kind == "be-mismatch":        # the E of the last slice of the last file names another slice: ingestion asserts
         k = sorted(files)[-1]
         evs = [dict(e) for e in files[k]]
